@@ -113,6 +113,7 @@ type sweepRow struct {
 	M      int    `json:"m"`
 	Clause string `json:"clause"`
 	Detail string `json:"detail"`
+	Class  string `json:"class,omitempty"` // known-finding class attribution ("" if none)
 }
 
 // sweepLaw: for every rune c, every form p of "the literal c" and every one of the 128 modes: Regexp returns an
@@ -149,6 +150,58 @@ func sweepLaw() {
 							break
 						}
 					}
+				}
+			}
+		}
+	}
+	hx.Emit(map[string]any{"summary": map[string]int{"cases": n}})
+}
+
+// starLaw: in Filenames mode only an exact "**" path element is globstar; a run of three or more stars means the same as
+// one star (bash).  For every path pattern containing such a run and every Filenames mode combination, the expression
+// must accept the same path strings as the pattern with the runs collapsed.  Emits failing rows and a summary.
+func starLaw(tier string, seed uint64) {
+	strs := hxpat.PathStrings()
+	n := 0
+	for l := 1; l <= 3; l++ {
+		np := hxpat.NumPaths(l)
+		for i := 0; i < np; i++ {
+			if l == 3 && tier != "thorough" && uint64(i%8) != seed%8 {
+				continue
+			}
+			p := hxpat.PathPattern(l, i)
+			q := hxpat.CollapseStarRuns(p)
+			if q == p {
+				continue
+			}
+			for _, m := range []pattern.Mode{ES | FN, ES | FN | GLD, ES | FN | NGS, ES | FN | EXT, ES | FN | NC} {
+				n++
+				a := hxpat.ViaRegexp(p, m, strs)
+				b := hxpat.ViaRegexp(q, m, strs)
+				if a.Bits != b.Bits || a.Err != b.Err {
+					d, found := "", false
+					for k := range strs {
+						if k < len(a.Bits) && k < len(b.Bits) && a.Bits[k] != b.Bits[k] {
+							if !found {
+								d, found = strs[k], true
+							}
+							if !strings.Contains("/"+strs[k], "/.") { // prefer a difference that does not involve a dot name
+								d = strs[k]
+								break
+							}
+						}
+					}
+					// known finding: the third star of a run is emitted as [^/]* and lets the element start with a dot
+					class := ""
+					if m&GLD == 0 && a.Err == "" && b.Err == "" {
+						for _, comp := range strings.Split(d, "/") {
+							if strings.HasPrefix(comp, ".") {
+								class = "star_run_leaks_leading_dot"
+							}
+						}
+					}
+					hx.Emit(sweepRow{P: hx.Hex(p), M: int(m), Clause: "star_run_is_not_a_single_star", Class: class,
+						Detail: "collapsed=" + q + " differs on " + d + " " + a.Err + b.Err})
 				}
 			}
 		}
@@ -235,6 +288,41 @@ func main() {
 				hx.Emit(codeObserveCap(p, pattern.Mode(r.IntN(128)), "sweep", 2))
 			}
 		}
+		// Filenames-mode path patterns (star runs of length 1..4 alone / glued to text, dot names): all with <= 2
+		// elements, a seed-rotated slice with 3 (thorough: a quarter)
+		fnModes := []pattern.Mode{ES | FN, ES | FN | GLD, ES | FN | NGS, FN | SH}
+		for l := 1; l <= 3; l++ {
+			np := hxpat.NumPaths(l)
+			for i := 0; i < np; i++ {
+				if l == 2 && o.Tier != "thorough" && uint64(i%8) != o.Seed%8 {
+					continue
+				}
+				if l == 3 && (o.Tier != "thorough" && uint64(i%512) != o.Seed%512 || o.Tier == "thorough" && uint64(i%4) != o.Seed%4) {
+					continue
+				}
+				p := hxpat.PathPattern(l, i)
+				for _, m := range fnModes {
+					hx.Emit(codeObserve(p, m, "paths"))
+				}
+			}
+		}
+	case "starpairs":
+		// relative path patterns with a run of >= 3 stars and their collapsed form, for the bash pathname-expansion oracle
+		for l := 1; l <= 3; l++ {
+			np := hxpat.NumPaths(l)
+			for i := 0; i < np; i++ {
+				if l == 3 && o.Tier != "thorough" && uint64(i%8) != o.Seed%8 {
+					continue
+				}
+				p := hxpat.PathPattern(l, i)
+				q := hxpat.CollapseStarRuns(p)
+				if q != p && !strings.HasPrefix(p, "/") {
+					hx.Emit(map[string]string{"p": p, "q": q})
+				}
+			}
+		}
+	case "starlaw":
+		starLaw(o.Tier, o.Seed)
 	case "brackets":
 		for l := 0; l <= 3; l++ {
 			nb := hxpat.NumBrackets(l)
